@@ -134,3 +134,35 @@ func PanicSite(out string) string {
 	}
 	return strings.TrimSpace(msg)
 }
+
+// ClassifyDump looks at a goroutine dump (after SIGQUIT) and decides whether the main
+// goroutine is parked on a lock inside git-bug code: "deadlock:<function>" or "".
+// Elapsed time never decides; anything else stays inconclusive.
+func ClassifyDump(out string) string {
+	blocks := strings.Split(out, "\n\n")
+	for _, b := range blocks {
+		lines := strings.Split(b, "\n")
+		if len(lines) == 0 || !strings.HasPrefix(lines[0], "goroutine 1 ") {
+			continue
+		}
+		head := lines[0]
+		if !(strings.Contains(head, "sync.Mutex.Lock") || strings.Contains(head, "sync.RWMutex") || strings.Contains(head, "semacquire")) {
+			return ""
+		}
+		for _, l := range lines[1:] {
+			l = strings.TrimSpace(l)
+			if strings.HasPrefix(l, "github.com/MichaelMure/git-bug/") {
+				fn := strings.TrimPrefix(l, "github.com/MichaelMure/git-bug/")
+				if j := strings.LastIndex(fn, "("); j > 0 {
+					fn = fn[:j]
+				}
+				if k := strings.Index(fn, "[..."); k > 0 {
+					fn = fn[:k] + fn[k+5:]
+				}
+				return "deadlock:" + fn
+			}
+		}
+		return ""
+	}
+	return ""
+}
